@@ -16,6 +16,7 @@ from .c09 import CLS, FREQ, LETTER, FVAL, REG, MAXORD, show_period, day_ordinals
 
 DRIVERS = ["C11"]
 LEVEL = "proof"
+EXTRA_PROPS = ['GenTieC09']   # further property modules audited with this check (translator ties)
 ASSUMPTIONS = [
     "Python's format mini-language (:04g, :02g), str.split/strip, int() and the re module are tied to the model's character-level functions by exact correspondence on every produced string plus a malformed stream, not by proof",
     "strings are ASCII: Python's \\d and int() also accept non-ASCII decimal digits, which the model's matcher does not represent",
